@@ -662,6 +662,10 @@ class Namespace(object):
     def __setstate__(self, uri):
         self.uri = uri
 
+    def __reduce__(self):
+        # a false state ('') is dropped by pickle: __setstate__ would never run
+        return (type(self), (self.uri,))
+
     def __init__(self, uri):
         self.uri = six.text_type(uri)
 
